@@ -8,8 +8,9 @@ The few non-structural rules (all listed in the header comment of the generated 
   R1  objects are singletons identified by the parameter annotation (`self` of class Reader / fjm_reader.Reader = the
       reader, IODevice = the io device, RunStatistics = the statistics); such parameters are erased, and an argument
       passed in such a position must be exactly a name of the same role.
-  R2  `name = <object>.<attr>` for a method / dict / timer attribute, with `name` assigned exactly once in the function,
-      is a static alias (no IR statement is emitted; uses of `name` mean the attribute).
+  R2  `name = <object>.<attr>` for a method / dict / timer attribute, as a top-level statement before the loop and with
+      `name` assigned exactly once in the function, is a static alias (no IR statement is emitted; later uses of `name`
+      mean the attribute; the attributes concerned are never rebound by the translated code, which cannot assign them).
   R3  `with <statistics.pause_timer>: body` is `body` (PauseTimer only reads the clock and does not swallow exceptions).
   R4  `x = last_ops.append if last_ops is not None else None` (last_ops an alias of statistics.last_ops_addresses) together
       with `if x is not None: x(e)` is `statistics.register_op_address(e)` (that method's body is exactly this test).
@@ -57,6 +58,8 @@ class Fn:
         self.alias = {}           # name -> ('attr', role, attr) | ('hist_append',)
         self.dropped = []         # (line, text, rule)
         self.params = []          # [(name, role or None)]
+        self.depth = 0            # nesting of the block being translated
+        self.in_prelude = False   # R2/R4 aliases are only recognised in the top-level statements before the loop
         a = node.args
         if a.vararg or a.kwarg or a.kwonlyargs or a.defaults or a.kw_defaults or a.posonlyargs:
             self.err(node, 'only plain positional parameters are in the subset')
@@ -262,7 +265,11 @@ class Fn:
 
     # ---- statements -------------------------------------------------------------------------
     def block(self, stmts, ind):
-        out = [s for s in (self.stmt(s, ind) for s in stmts) if s is not None]
+        self.depth += 1
+        try:
+            out = [s for s in (self.stmt(s, ind) for s in stmts) if s is not None]
+        finally:
+            self.depth -= 1
         if not out:
             return 'SPass'
         text = out[-1]
@@ -352,7 +359,7 @@ class Fn:
 
     def assign_name(self, s, t):
         name, v = t.id, s.value
-        once = self.store_count.get(name) == 1 and name not in self.vars
+        once = self.store_count.get(name) == 1 and name not in self.vars and self.in_prelude and self.depth == 1
         r = self.ref(v)
         if r is not None and r[0] == 'attr' and (r[1], r[2]) in ALIASABLE:       # R2
             if not once:
@@ -470,7 +477,9 @@ class Translator:
             if not (isinstance(last, ast.While) and isinstance(last.test, ast.Constant) and last.test.value is True
                     and not last.orelse):
                 raise GenError(f'{fn.file}:{node.lineno}: {py} does not end with `while True:` (optionally inside try/finally)')
+            fn.in_prelude = True
             prelude = fn.block(stmts[:-1], 2)
+            fn.in_prelude = False
             body = fn.block(last.body, 2)
             fin = fn.block(final, 2) if final is not None else 'SPass'
             chunk = []
